@@ -131,6 +131,30 @@ def check_case(core, v, level, root_kind, seg, chain, spellings, rec, group_path
             rec.violation('read-changed-%s' % what, case, {'before': str(before[0][0])[:150],
                                                           'after': str(after[0][0])[:150]})
             return
+        # a terminal write that is refused (element of another validation level) must create nothing either
+        try:
+            cls = (core.Field, core.Component, core.SubComponent)[len(chain) - 1]
+            bad = cls(chain[-1][0], version=v, validation_level=3 - level)
+            bad.value = gen.witness(v, 'ST')
+        except Exception:
+            bad = None
+        if bad is not None:
+            cur = root
+            for nm in names[:-1]:
+                cur = getattr(cur, nm)
+            refused = False
+            try:
+                setattr(cur, names[-1], bad)
+            except Exception:
+                refused = True
+            if refused:
+                rec.count('refused_terminal_writes')
+                if state(root) != before:
+                    rec.violation('refused-write-materialised-the-chain', case, {'after': root.to_er7()[-120:]})
+                    return
+            else:
+                rec.count('bad_terminal_write_accepted')
+                return
         # terminal write
         ids_before = {id(e) for e in treeinv.walk(root)}
         text, sub = leaf_witness(v, chain[-1][2])
